@@ -13,7 +13,7 @@ REQUIRE = {'any': {'subset_recombinations': 2000, 'xr_recombinations': 500, 'deg
 LEVEL_TEXT = 'exploration: all (t,m) with m<=8 (m<|F|), all (t+1)-subsets, fields prime/binary/extension incl. a 61-bit prime; secrets sampled with boundary values'
 LEVEL_NOTE = 'trusted: vlib/oracles/ref.py; numpy only in the array shard'
 
-FIELDS = [('p', 2), ('p', 3), ('p', 5), ('p', 7), ('p', 11), ('p', 101), ('p', 2**61 - 1),
+FIELDS = [('p', 2), ('p', 3), ('p', 5), ('p', 7), ('p', 11), ('p', 101), ('p', 2**61 - 1), ('p', 2**31 - 1), ('p', 19),
           ('x', 2, 'x^2+x+1'), ('x', 2, 'x^3+x+1'), ('x', 2, 'x^8+x^4+x^3+x+1'), ('x', 3, 'x^2+1'), ('x', 5, 'x^2+2'), ('x', 3, 'x^3+2x+1')]
 
 
@@ -56,11 +56,25 @@ def run(shard, rec):
     def red(v):
         return ref.elt(F, field(v) if not isinstance(v, field) else v)
 
-    for m in range(1, 9):
+    # a sibling field: same order, other irreducible modulus (anything remembered per order instead of per field would be stale)
+    sib = None
+    if field.ext_deg > 1 and q <= 10 ** 6:
+        from mpyc import finfields, gfpx
+        P_ = gfpx.GFpX(field.characteristic)
+        pol = P_(field.characteristic ** field.ext_deg)
+        for _ in range(6):
+            pol = P_.next_irreducible(pol)
+            if pol.degree() != field.ext_deg:
+                break
+            if pol != field.modulus:
+                sib = finfields.GF(pol)
+                break
+    big_m = [13, 17] if field.ext_deg == 1 and q > 17 else []       # many parties / high thresholds (fixed-width integer arithmetic would overflow here first)
+    for m in list(range(1, 9)) + big_m:
         if m >= q:
             continue
-        for t in range(0, m):
-            for rep in range(shard['reps']):
+        for t in (range(0, m) if m <= 8 else (1, m // 2 + 2, m - 4, m - 1)):
+            for rep in range(shard['reps'] if m <= 8 else max(1, shard['reps'] // 3)):
                 n = rng.choice([1, 2, 3])
                 svals = [rng.choice([0, 1, q - 1, rng.randrange(q)]) for _ in range(n)]
                 as_elements = bool(rep % 2)
@@ -95,6 +109,9 @@ def run(shard, rec):
                     order = list(S)
                     rng.shuffle(order)
                     points = [(i + 1, shares[i]) for i in order]
+                    if sib is not None:
+                        thresha.recombine(sib, [(x_, [sib(1).value] * n) for x_, _ in points])      # same x-coordinates in the sibling field first
+                        rec.count('sibling_recombinations')
                     y = thresha.recombine(field, points)
                     rec.count('subset_recombinations')
                     got = [red(v) for v in y]
